@@ -104,22 +104,63 @@ Drifts(r) ==
   {f \in {<<"DRIFT", r.id, k, "tryrun">> : k \in Idx(r.tries)} :
      LET t == r.tries[f[3]]
          s == TryRun(v.prog, r.envs[t.e], ToSet(t.av))
-     IN s.st # "done" \/ ~OutcomeEq(s.res, t.res) \/ Len(s.eff) # Len(t.eff)}
+     \* (tries through the library's own contexts have no observable fetches)
+     IN s.st # "done" \/ ~OutcomeEq(s.res, t.res) \/ (t.lib = "" /\ Len(s.eff) # Len(t.eff))}
   \cup
   {f \in {<<"DRIFT", r.id, 0, "layout">>} :
-     v.costs = "none" /\ ~ProgEq(Layout(Optimize(r.tree, v.m, DefaultCfg)), v.prog)}
+     v.costs = "none" /\
+     LET L == Layout(Optimize(r.tree, v.m, DefaultCfg)) IN
+     ~ProgEq(IF v.ev = "" THEN L ELSE AddEvents(L), v.prog)}
+
+\* ---------------------------------------------------------------- library contexts
+\* A recorded history of Get/Set/Cached calls on a context built by the library is stepped through
+\* Fetchers.tla.  What a fresh context says about a registered variable that WAS given a value is
+\* property level (it is the premise "every variable is available" of C04 and the available set of
+\* C05): available, and reading the unified value.  Everything else is the as-built fetcher: drift.
+Fx == INSTANCE Fetchers
+FKm(r) == [n \in {r.km[i].n : i \in Idx(r.km)} |-> r.km[CHOOSE i \in Idx(r.km) : r.km[i].n = n].k]
+FVals(r) == [n \in {r.vals[i].n : i \in Idx(r.vals)} |-> r.vals[CHOOSE i \in Idx(r.vals) : r.vals[i].n = n].v]
+FInit(r) ==
+  CASE r.mode = "ctx" -> Fx!NewCtx(FKm(r), r.undef, FVals(r))
+    [] r.mode = "slice" -> Fx!NewSlice(FKm(r), FVals(r))
+    [] OTHER -> Fx!NewMap(FVals(r))
+FSame(a, b) == IF IsPanic(a) \/ IsPanic(b) THEN IsPanic(a) /\ IsPanic(b) ELSE OutcomeEq(a, b)
+\* the set of op indices whose observed result differs from the model's
+FBad(r) ==
+  LET RECURSIVE go(_, _, _)
+      go(i, f, bad) ==
+        IF i > Len(r.ops) THEN bad
+        ELSE LET o == r.ops[i]
+                 st == IF o.op = "set" THEN Fx!Set(f, o.k, o.n, o.val) ELSE [f |-> f, res |-> NIL]
+                 exp == CASE o.op = "get" -> Fx!Get(f, o.k, o.n)
+                          [] o.op = "cached" -> B(Fx!Cached(f, o.k, o.n))
+                          [] OTHER -> st.res
+             IN go(i + 1, st.f, IF FSame(exp, o.res) THEN bad ELSE bad \cup {i})
+  IN go(1, FInit(r), {})
+FFetch(r) ==
+  IF r.kind = "panic" THEN {<<r.for, r.id, 0, 0, "ctx-panic">>}
+  ELSE {f \in {<<r.for, r.id, i, 0, "ctx-binding">> : i \in Idx(r.ops)} :
+          LET o == r.ops[f[3]] IN
+          o.init /\ o.n \in DOMAIN FVals(r) /\
+          (IF o.op = "cached" THEN ~VEq(o.res, B(TRUE)) ELSE ~VEq(o.res, FVals(r)[o.n]))}
+DFetch(r) ==
+  IF r.kind = "panic" THEN {} ELSE
+  (IF r.kind # FInit(r).kind THEN {<<"DRIFT", r.id, 0, "fetcher-kind">>} ELSE {})
+  \cup {<<"DRIFT", r.id, i, "fetcher">> : i \in FBad(r)}
 
 Init == l = 1 /\ judged = 0 /\ nontriv = 0 /\ skipped = 0 /\ drift = 0 /\ found = 0
 Next ==
   /\ l <= Len(Trace)
   /\ l' = l + 1
   /\ LET r == Trace[l]
-         dom == IF r.for = "C05" /\ r.var.cout = "ok" THEN Dom05(r) ELSE {}
-         F == IF r.for = "C04" THEN F04(r) ELSE F05on(r, dom)
-         K0 == IF r.for = "C04" THEN K04(r) ELSE {}
+         fetch == r.fam = "fetch"
+         dom == IF ~fetch /\ r.for = "C05" /\ r.var.cout = "ok" THEN Dom05(r) ELSE {}
+         F == IF fetch THEN FFetch(r) ELSE IF r.for = "C04" THEN F04(r) ELSE F05on(r, dom)
+         K0 == IF ~fetch /\ r.for = "C04" THEN K04(r) ELSE {}
          K == {f \in K0 : K04Explained(r, f)}
-         D == Drifts(r)
-         c == IF r.for = "C04" THEN Counts04(r)
+         D == IF fetch THEN DFetch(r) ELSE Drifts(r)
+         c == IF fetch THEN [j |-> Len(r.ops), n |-> Card({i \in Idx(r.ops) : r.ops[i].op = "set" \/ r.ops[i].init}), s |-> 0]
+              ELSE IF r.for = "C04" THEN Counts04(r)
               ELSE [j |-> Card(dom), n |-> NonTriv05(r, dom), s |-> Len(r.tries) - Card(dom)]
      IN /\ \A f \in F : PrintT(<<"F", f[1], f[2], f[3], f[4], f[5]>>)
         /\ \A f \in K : PrintT(<<"K", f[1], f[2], f[3], f[4], f[5]>>)
@@ -128,7 +169,7 @@ Next ==
         /\ judged' = judged + c.j
         /\ nontriv' = nontriv + c.n
         /\ skipped' = skipped + c.s
-        /\ drift' = drift + (IF r.var.cout = "ok" /\ r.var.hasprog THEN Len(r.tries) ELSE 0)
+        /\ drift' = drift + (IF fetch THEN Len(r.ops) ELSE IF r.var.cout = "ok" /\ r.var.hasprog THEN Len(r.tries) ELSE 0)
         /\ found' = found + Card(F)
 Spec == Init /\ [][Next]_vars
 Done == l = Len(Trace) + 1 => PrintT(<<"SUMMARY", l - 1, judged, nontriv, skipped, drift, found>>)
